@@ -363,6 +363,27 @@ Definition c09_owned (op : rop) (b a : opobs) : list fail :=
   | _ => if same then [] else [(5, [5])]
   end.
 
+(* clause 6: after the instance stopped (Crash / RecCrash), its successor's tracker holds, for every partition, exactly the
+   last snapshot broadcast or delivered for it so far (nothing if none).  [log] is every recoveryrequest message put on
+   the messaging topic so far, computed from the observations only: the snapshots delivered from other senders
+   (Deliver (MReq ..)) and the broadcasts each op was observed to send.  The comparison is per partition, so it does not
+   depend on the (stable) sort by partition of b_sent / b_trk: what a replay holds for p is the last entry of the log
+   for p *)
+Definition successor_ok (trk_after : tstate) (log : list bcast) : bool :=
+  let want := replay log in
+  forallb (fun p => req_list_eqb (reqs_of trk_after p) (reqs_of want p)) partitions.
+
+Fixpoint c09_successor (ops : list rop) (l : list opobs) (log : list bcast) : list fail :=
+  match ops, l with
+  | op :: ops', a :: l' =>
+      let log' := log ++ (match op with Deliver (MReq p rs) => [(p, rs)] | _ => [] end) ++ b_sent a in
+      (match op with
+       | Crash | RecCrash _ => if successor_ok (b_trk a) log' then [] else [(6, [1])]
+       | _ => []
+       end) ++ c09_successor ops' l' log'
+  | _, _ => []
+  end.
+
 Definition has_handoff (ops : list rop) : bool :=
   existsb (fun op => match op with Crash | Revoke | RecCrash _ => true | _ => false end) ops.
 
@@ -371,7 +392,7 @@ Definition spec_c09 (cfg : rcfg) (ops : list rop) (l : list opobs) : list fail :
     dedup_fail (scan c09_refresh ops obs0 l
                 ++ (if has_handoff ops then cover_fails 2 true cfg ops l ++ outside_fails 2 cfg ops l else [])
                 ++ cover_fails 3 false cfg ops l
-                ++ c09_revoked ops l false ++ scan c09_owned ops obs0 l)
+                ++ c09_revoked ops l false ++ scan c09_owned ops obs0 l ++ c09_successor ops l [])
   else [(0, [])].
 
 (* ---------------- C19 ---------------- *)
